@@ -340,10 +340,13 @@ def enable_basic_logging(
 
     if file:
         filename = "scrapli.log" if isinstance(file, bool) else file
+        # always write the log file as utf-8 -- with the locale's default encoding (ascii, cp1252, ...)
+        # any message with a character outside of it (i.e. a "write: %r" of a non-ascii command) fails
+        # to be written, and with it the header row when it happens to be the first message
         if not buffer_log:
-            fh = FileHandler_(filename=filename, mode=file_mode)
+            fh = FileHandler_(filename=filename, mode=file_mode, encoding="utf-8")
         else:
-            fh = ScrapliFileHandler(filename=filename, mode=file_mode)
+            fh = ScrapliFileHandler(filename=filename, mode=file_mode, encoding="utf-8")
 
         fh.setFormatter(scrapli_formatter)
 
